@@ -1,6 +1,7 @@
 CONSTANTS
   MaxD = 2
   Locked = TRUE
+  CanDisconnect = FALSE
   AllGroups = FALSE
 SPECIFICATION Spec
 INVARIANTS HasNextFalseExactlyLast
